@@ -218,7 +218,9 @@ func cmdCheck(args []string) {
 				o.Status = "conditional"
 				o.Solver = "proved only under an undischarged earlier invariant/precondition obligation"
 			}
-			if !tainted && (o.Kind == "inv-entry" || o.Kind == "inv-keep" || o.Kind == "pre") && o.Status != "unsat" {
+			if !tainted && (o.Kind == "inv-entry" || o.Kind == "inv-keep" || o.Kind == "pre") && o.Status != "unsat" && o.Status != "skipped" {
+				// (an obligation skipped because the baseline does not claim it taints nothing here:
+				// everything it tainted when the baseline was written is unclaimed already)
 				tainted = true
 			}
 		}
